@@ -71,7 +71,7 @@ MsgOptsNone == {"none"}
 MsgOptsFew == {"none", "type_oneof", "psm"}
 EnumOptsAll == {"none", "no_default", "info_fields", "value_info"}
 EnumOptsNone == {"none"}
-RecAll == {"self", "mutual", "map", "repeated", "optional", "oneof", "flatchild", "flatclash", "oneofclash"}
+RecAll == {"self", "mutual", "map", "repeated", "optional", "oneof", "flatchild", "flatclash", "oneofclash", "flatoneof"}
 \* reduced pools for pair exploration: one representative per class of the kind switch
 KindsPair == {"string", "bool", "int32", "fixed32", "fixed64", "double"}
 WktPair == {"Timestamp", "Struct", "Any", "Empty"}
